@@ -342,3 +342,20 @@ func nonNil(s []string) []string {
 	}
 	return s
 }
+
+// asRule runs f and files the obligations it records under rule `to` instead
+// of `from` (for rules shared between properties).
+func (c *Ctx) asRule(from, to string, f func()) {
+	n0 := len(c.Obls)
+	f()
+	for i := n0; i < len(c.Obls); i++ {
+		if c.Obls[i].Rule == from {
+			c.Obls[i].Rule = to
+			c.ruleCounts[from]--
+			c.ruleCounts[to]++
+		}
+	}
+	if c.ruleCounts[from] == 0 {
+		delete(c.ruleCounts, from)
+	}
+}
